@@ -137,7 +137,12 @@ func (v *aInterface) emitGetData(destType ValueType, commaOk bool) (insts []wat.
 	}
 
 	// false:
-	ifBlock.False = NewConst("0", destType).EmitPush()
+	if _, ok := destType.(*String); ok {
+		// the zero value of a string is "", not the string "0"
+		ifBlock.False = NewConst("", destType).EmitPush()
+	} else {
+		ifBlock.False = NewConst("0", destType).EmitPush()
+	}
 
 	if commaOk {
 		ifBlock.Ret = append(ifBlock.Ret, wat.I32{})
